@@ -1,6 +1,8 @@
 package main
 
 import (
+	"fmt"
+
 	"verifh/lib"
 )
 
@@ -283,7 +285,7 @@ func extraCase(r *lib.Rand, p, s, origin string) in {
 var litChars = []byte("abc12 x_")
 var classLetters = []byte("acdlpsuwxzACDLPSUWXZ")
 var escPunct = []byte(".%[]()*+-?^$")
-var subjAlpha = []byte("abcABC12 _().-%x\n")
+var subjAlpha = []byte("abcABC12 _().-%x\n\t\v\f\r09azAZfgFG/:@[`{~\x00\x1f\x7f\x80\xff")
 
 type gstate struct {
 	r      *lib.Rand
@@ -579,6 +581,22 @@ func generate(w *lib.Writer, pl *pool, r *lib.Rand, tier string) {
 				runCase(w, pl, extraCase(r, p, s, "small"))
 			}
 		}
+	}
+
+	// (1b) class sweep: every class letter, plain and inside (complemented) sets, against all 256 bytes:
+	// gsub deletes the matching bytes, so the result string shows the exact membership
+	all := make([]byte, 256)
+	for i := range all {
+		all[i] = byte(i)
+	}
+	for _, cl := range classLetters {
+		for _, form := range []string{"%%%c", "[%%%c]", "[^%%%c_]", "[a%%%c-]"} {
+			p := fmt.Sprintf(form, cl)
+			runCase(w, pl, in{Fn: "gsub", S: hx(string(all)), P: hx(p), Repl: &replIn{Kind: "str", Str: ""}, Src: "class-sweep"})
+		}
+	}
+	for _, p := range []string{".", "[a-f]", "[^a-f]", "[%a%d]", "[\x80-\xff]", "[^%z]", "%%", "[%]]", "[]]", "[^]]", "[%-]", "[a-]"} {
+		runCase(w, pl, in{Fn: "gsub", S: hx(string(all)), P: hx(p), Repl: &replIn{Kind: "str", Str: ""}, Src: "class-sweep"})
 	}
 
 	// (2) grammar-generated longer patterns, (3) malformed stream
